@@ -5,6 +5,7 @@ import (
 	"context"
 	"sort"
 	"sync"
+	"time"
 
 	"github.com/kubewharf/kubebrain/pkg/storage"
 )
@@ -23,6 +24,13 @@ type ctl struct {
 
 	// injected partition borders (nil = ask the engine)
 	splits [][]byte
+
+	// engine-timestamp fault (C15): when armed, the first GetTimestampOracle after the next successful
+	// commit fails, and the oracle read after that one is slow (so that whoever reads the lock's
+	// description does so before a later read refreshes it)
+	tsoArmed bool
+	tsoState int // 0 idle, 1 fail the next oracle read, 2 delay the next oracle read
+	tsoFired int
 
 	// scheduled mode
 	gated   bool
@@ -88,6 +96,22 @@ type kvWrap struct {
 }
 
 func (w *kvWrap) GetTimestampOracle(ctx context.Context) (uint64, error) {
+	w.c.mu.Lock()
+	st := w.c.tsoState
+	switch st {
+	case 1:
+		w.c.tsoState = 2
+		w.c.tsoFired++
+	case 2:
+		w.c.tsoState = 0
+	}
+	w.c.mu.Unlock()
+	switch st {
+	case 1:
+		return 0, errInjected
+	case 2:
+		time.Sleep(400 * time.Millisecond)
+	}
 	return w.inner.GetTimestampOracle(ctx)
 }
 
@@ -218,7 +242,16 @@ func (b *batchWrap) Commit(ctx context.Context) error {
 		for _, op := range b.ops {
 			op(inner)
 		}
-		return inner.Commit(ctx)
+		err := inner.Commit(ctx)
+		if err == nil {
+			b.w.c.mu.Lock()
+			if b.w.c.tsoArmed {
+				b.w.c.tsoArmed = false
+				b.w.c.tsoState = 1
+			}
+			b.w.c.mu.Unlock()
+		}
+		return err
 	}
 	if fault == "e" || fault == "un" || fault == "ua" {
 		// a fault directive is consumed only by a commit whose conditions hold; otherwise the engine's
